@@ -68,7 +68,7 @@ def units(tier):
         us.append(("menu", name))
     for name in ("BsaI", "BbsI", "BtgZI"):
         us.append(("large", name))
-    for name in ("BtsI", "BsrDI", "BseRI"):
+    for name in (("BtsI", "BsrDI", "BseRI", "MnlI") if tier == "quick" else [n for n, _ in gen.three_prime_enzymes()]):
         us.append(("three-prime", name))
     # every overhang word of the 3- and 4-nt kit geometries in each junction role (k = 1); thorough: every pair
     for name in ("BsaI", "BbsI", "BsmBI", "BspQI"):
@@ -143,6 +143,8 @@ def unit_three_prime(st, name, tier):
     forbid = [g.site]
     words = gen.overhang_words(g.ov, 4, 2)
     for k in (1, 2, 3):
+        if k + 1 > len(words):
+            continue            # (1-nt overhangs: only so many words that do not pair with each other)
         scn = dict(enz=name, k=k, ovs=words[: k + 1], three_prime=True, rot=[0] * (k + 1),
                    bodies=[gen.word(i, 3 + 5 * i, 2 + i, forbid) for i in range(k)], mbbs=[gen.word(i + 1, 9 + 3 * i, 3 + i, forbid) for i in range(k)],
                    fills=[[gen.word(0, 3 + i, g.off, forbid), gen.word(0, 17 + i, g.off, forbid)] for i in range(k)],
